@@ -66,7 +66,12 @@ def make_dist(rng):
 def check_sample(res, L, N, keys, sizes, tap, ctx, weights=None):
     T = len(sizes)
     n0 = len(tap.log)
-    out = sut("sample_jds_from_jdd", L.sample_jds_from_jdd, N)
+    N_arg = N
+    if N % 7 == 3:
+        import numpy as np
+        N_arg = np.int64(N)          # the network size as the caller may hold it (len() of an array, an element of one)
+        res.count("sample_sizes_given_as_numpy_integers")
+    out = sut("sample_jds_from_jdd", L.sample_jds_from_jdd, N_arg)
     res.count("samplings")
     ev = tap.log[n0:]
     ch = [e for e in ev if e[0] == "choices"]
